@@ -144,6 +144,10 @@ def check_local(case, ctx):
         forms.invariant(ctx, r, lambda x: f.ned2enu(x), [Ai])
         forms.invariant(ctx, r, lambda x: f.enu2ned(f.ned2enu(x)), [Ai])
     r = "llf<->ecef"
+    # eci2ecef is not among the transformations C17 names; observed only (it returns cos(w)*t instead of cos(w*t): not a rotation, zero for t = 0)
+    out = call(lambda: np.asarray(f.eci2ecef(7.292115e-5, 1000.0), float))
+    if out.ok:
+        ctx.note("observation (not judged): eci2ecef(w, t) is %s" % ("orthogonal" if np.abs(out.value @ out.value.T - np.eye(3)).max() < 1e-12 else "not an orthogonal matrix"))
     out = call(lambda: (np.asarray(f.llf2ecef(la, lo), float), np.asarray(f.ecef2llf(la, lo), float)))
     if ctx.returned(out, route=r):
         M1, M2 = out.value
